@@ -607,6 +607,73 @@ func (fa *FuncAnalysis) defsTerm(ids []int) *Term {
 	return &Term{Op: "mem", Name: strings.Join(parts, "|")}
 }
 
+// capturedDefinition: the free variable is a local of the enclosing function that is assigned exactly once (its
+// definition, before the closure is made) and that neither the closure nor anything nested in it can write: its value
+// inside the closure is the value it was defined with (`denom := asset.Denom` hoisted out of a callback).  The term is
+// the enclosing function's; nil when any of this cannot be shown.
+func (fa *FuncAnalysis) capturedDefinition(fv *ssa.FreeVar) *Term {
+	par := fa.Fn.Parent()
+	if par == nil || fa.e == nil {
+		return nil
+	}
+	idx := -1
+	for i, f := range fa.Fn.FreeVars {
+		if f == fv {
+			idx = i
+		}
+	}
+	if idx < 0 || freeVarMayBeWritten(fa.Fn, fv, 0) {
+		return nil
+	}
+	var cell *ssa.Alloc
+	n := 0
+	for _, b := range par.Blocks {
+		for _, in := range b.Instrs {
+			if mc, ok := in.(*ssa.MakeClosure); ok && mc.Fn == ssa.Value(fa.Fn) && idx < len(mc.Bindings) {
+				n++
+				cell, _ = mc.Bindings[idx].(*ssa.Alloc)
+			}
+		}
+	}
+	if n != 1 || cell == nil {
+		return nil
+	}
+	var def *ssa.Store
+	for _, ref := range *cell.Referrers() {
+		switch x := ref.(type) {
+		case *ssa.Store:
+			if x.Addr != ssa.Value(cell) || def != nil {
+				return nil
+			}
+			def = x
+		case *ssa.UnOp, *ssa.DebugRef:
+		case *ssa.MakeClosure:
+			cf, _ := x.Fn.(*ssa.Function)
+			for i, b := range x.Bindings {
+				if b == ssa.Value(cell) && (cf == nil || i >= len(cf.FreeVars) || freeVarMayBeWritten(cf, cf.FreeVars[i], 0)) {
+					return nil
+				}
+			}
+		default:
+			return nil // address taken otherwise
+		}
+	}
+	if def == nil {
+		return nil
+	}
+	// only plain values (no struct whose fields could be written through another path)
+	switch cell.Type().(*types.Pointer).Elem().Underlying().(type) {
+	case *types.Basic:
+	default:
+		return nil
+	}
+	pfa := fa.e.FA(par)
+	if pfa == nil || pfa == fa {
+		return nil
+	}
+	return pfa.Term(def.Val)
+}
+
 func (fa *FuncAnalysis) loadTerm(u *ssa.UnOp) *Term {
 	res, ok := fa.loadRes[u]
 	if !ok {
@@ -627,6 +694,12 @@ func (fa *FuncAnalysis) loadTerm(u *ssa.UnOp) *Term {
 		case *ssa.Global:
 			base = fa.mkPath(&Term{Op: "global", Name: globalName(rv)}, res.path)
 		default:
+			if fv, isFV := res.rootVal.(*ssa.FreeVar); isFV {
+				if dt := fa.capturedDefinition(fv); dt != nil {
+					base = fa.mkPath(dt, res.path)
+					break
+				}
+			}
 			if _, isSlice := res.rootVal.Type().Underlying().(*types.Slice); isSlice {
 				base = fa.mkPath(fa.Term(res.rootVal), res.path)
 			} else {
